@@ -29,6 +29,9 @@ Record ccase := {
   cc_init : fstate N;
   cc_steps : list (op N * cobs);
   cc_conc : list (N * N * N);    (* under concurrent rotation j -> (wrapper j, salt j, info j): indices attributed to each HMAC value *)
+  cc_cb : list (N * N * N);      (* the same for an event with per-event wrapper info and nil salt / info whose own Tags() callback
+                                    rotates the filter between the head of Process and the values (the schedule of
+                                    CryptoProofs.ewi_fallback_mixes_refuted): (base of the derived wrapper, salt, info) *)
 }.
 
 Inductive kind :=
@@ -114,4 +117,5 @@ Definition conc_ok (t : N * N * N) : bool := match t with (w, s, i) => N.eqb w s
 Definition mismatches (cs : list ccase) : list (N * (N * N * kind)) :=
   flat_map (fun c =>
     map (fun m => (cc_id c, (fst m, 0%N, snd m))) (run_steps false (cc_init c) [] 0%N (cc_steps c))
-    ++ (if forallb conc_ok (cc_conc c) then [] else [(cc_id c, (0%N, 1%N, CKAtomic))])) cs.
+    ++ (if forallb conc_ok (cc_conc c) then [] else [(cc_id c, (0%N, 1%N, CKAtomic))])
+    ++ (if forallb conc_ok (cc_cb c) then [] else [(cc_id c, (0%N, 2%N, CKAtomic))])) cs.
